@@ -622,8 +622,8 @@ def to_labels(vec):
             "names": {L(i + 1): n for i, n in enumerate(names)}, "esc": {L(i + 1): n for i, n in enumerate(esc)}}
 
 
-def worker_init(repo):
-    os.environ["ANYTREE_ASSERTIONS"] = "0"
+def worker_init(repo, assertions=False):
+    os.environ["ANYTREE_ASSERTIONS"] = "1" if assertions else "0"
     sys.path.insert(0, repo)
     import anytree  # noqa
 
